@@ -7,4 +7,10 @@ cp /repo/go.sum mc/go.sum
 mkdir -p bin evidence replays
 (cd mc && go build -o /verif/bin/mc ./cmd/mc)
 /verif/bin/mc list >/dev/null
+# C18: build the seam tool and warm the build cache for the overlay build
+(cd seamtool && go build -o /verif/bin/seamtool .)
+seam=/var/tmp/verif-seam-setup-$$
+/verif/bin/seamtool -repo /repo -out "$seam" ./x/ccv/... >/dev/null
+(cd mc && go build -overlay "$seam/overlay.json" -tags seam -o /verif/bin/mc-seam ./cmd/mc)
+rm -rf "$seam"
 echo "setup ok"
